@@ -135,6 +135,15 @@ func pureInstr(instr ssa.Instruction) bool {
 		switch in.Op {
 		case token.NOT, token.SUB, token.XOR:
 			return true
+		case token.MUL:
+			return true // load: bails out dynamically on a nil pointer
+		}
+		return false
+	case *ssa.FieldAddr:
+		return true // bails out dynamically on a nil pointer
+	case *ssa.Call:
+		if b, ok := in.Call.Value.(*ssa.Builtin); ok && (b.Name() == "len" || b.Name() == "cap") {
+			return true
 		}
 		return false
 	case *ssa.Convert:
@@ -215,9 +224,8 @@ func (fr *frame) tryIfConvert(instr *ssa.If, cond *Term) bool {
 		for _, p := range x.Preds {
 			if region[p] {
 				indeg[x]++
-			} else if p != B {
-				return false // side entry
 			}
+			// predecessors outside the region are not on any path from B: they get no edge guard
 		}
 	}
 	var topo []*ssa.BasicBlock
@@ -249,11 +257,6 @@ func (fr *frame) tryIfConvert(instr *ssa.If, cond *Term) bool {
 	}
 	if len(topo) != len(order) {
 		return false
-	}
-	for _, p := range J.Preds {
-		if !region[p] && p != B {
-			return false
-		}
 	}
 
 	type edge struct{ from, to *ssa.BasicBlock }
@@ -345,7 +348,24 @@ func (fr *frame) tryIfConvert(instr *ssa.If, cond *Term) bool {
 			case *ssa.BinOp:
 				fr.env[in] = fr.p.binop(in.Op, in.X.Type(), in.Y.Type(), fr.get(in.X), fr.get(in.Y))
 			case *ssa.UnOp:
+				if in.Op == token.MUL {
+					if pv, isPtr := fr.get(in.X).(*Value); isPtr && pv == nil {
+						return false // would trap: let the normal path handle it
+					}
+				}
 				fr.env[in] = fr.unop(in, fr.get(in.X))
+			case *ssa.FieldAddr:
+				pv, _ := fr.get(in.X).(*Value)
+				if pv == nil {
+					return false
+				}
+				fr.env[in] = &(*pv).(Struct)[in.Field]
+			case *ssa.Call:
+				args := []Value{fr.get(in.Call.Args[0])}
+				if pv, isPtr := args[0].(*Value); isPtr && pv == nil {
+					return false
+				}
+				fr.env[in] = fr.w.callBuiltin(fr, in.Pos(), in.Call.Value.(*ssa.Builtin), args)
 			case *ssa.Convert:
 				fr.env[in] = fr.p.conv(in.Type(), in.X.Type(), fr.get(in.X))
 			case *ssa.ChangeType:
